@@ -84,7 +84,7 @@ struct EpHarness : Harness {
     }
 
     // ------------------------------------------------------------ generation
-    Json gen_script(Rng &r, int maxlen, bool allow_hard, bool octet) {
+    Json gen_script(Rng &r, int maxlen, bool allow_hard, bool octet, bool sink = false) {
         Json s = Json::arr();
         int n = (int)r.below((uint64_t)maxlen + 1);
         if (r.chance(1, 3)) n = 0;
@@ -98,7 +98,7 @@ struct EpHarness : Harness {
             case 7: s.push(-EINTR); break;
             case 8: s.push(-EAGAIN); break;
             default:
-                if (allow_hard && r.chance(1, 3)) s.push(-HARD_ERRORS[r.below(sizeof HARD_ERRORS / sizeof *HARD_ERRORS)]);
+                if (allow_hard && r.chance(1, 3)) { size_t hi = (size_t)r.below(N_HARD_ERRORS + (sink ? 2 : 0)); s.push(hi < N_HARD_ERRORS ? -HARD_ERRORS[hi] : -ENODATA); }   // a sink may fail with the code that means "end of data" on the source side
                 else s.push(1);
             }
         }
@@ -147,7 +147,7 @@ struct EpHarness : Harness {
             if (r.chance(1, 6)) { Json ij = Json::arr(); ij.push((long long)r.below(6)); ij.push((long long)r.below(1 << 20)); o["intrude"] = ij; }
             if (r.chance(1, 3)) o["alias"] = 1;
             o["ss"] = gen_script(r, maxscript, hard, so);
-            o["ks"] = gen_script(r, maxscript, hard, ko);
+            o["ks"] = gen_script(r, maxscript, hard, ko, true);
             if (k.size() > 4 && (k.compare(k.size() - 4, 4, "_aux") == 0 || k.compare(k.size() - 3, 3, "_gb") == 0)) {
                 int64_t size = r.range(1, t.thorough() ? 64 : 8);
                 int64_t used = r.range(1, size), off = r.range(0, used - 1);
